@@ -189,6 +189,16 @@ def is_error_exit(path):
     return False
 
 
+def tried(t):
+    """If t is the success payload of `x?` / `match x { Ok(v) | Some(v) => v, .. }`, return x; else None."""
+    if t[0] == "pl" and len(t[2]) >= 2 and isinstance(t[2][0], tuple) and t[2][0][0] == "d" and t[2][0][2] in ("Ok", "Some", "Continue") and isinstance(t[2][1], tuple) and t[2][1][0] == "f":
+        inner = t[1]
+        if inner[0] == "call" and name_is(inner[2], "branch") and inner[3]:
+            return inner[3][0]
+        return inner
+    return None
+
+
 def returns_none(body, path):
     """agg None, or `?` on an Option in a function that returns Option"""
     r = ret_of(path)
